@@ -5,6 +5,7 @@ import (
 	"github.com/jsightapi/jsight-schema-core/notations/jschema"
 	"github.com/jsightapi/jsight-schema-core/notations/regex"
 
+	"github.com/jsightapi/jsight-api-core/catalog"
 	"github.com/jsightapi/jsight-api-core/directive"
 	"github.com/jsightapi/jsight-api-core/jerr"
 )
@@ -166,6 +167,9 @@ func (core *JApiCore) checkPathBody(d *directive.Directive) *jerr.JApiError {
 		}
 		return s.AddType(k, v)
 	})
+	if err == nil {
+		err = catalog.CheckShortcutKeys(s, core.userTypes)
+	}
 	if err == nil {
 		err = s.Check()
 	}
